@@ -2339,6 +2339,16 @@ impl Collection {
                 index.drop_data().await;
                 return Err(err);
             }
+            // Persist the backfilled content before the index is registered:
+            // any later metadata write (a flush, but also the unclaimed
+            // writes of `save_extension` / `remove_*_index`) publishes the
+            // registration, and a crash after that write must not find a
+            // registered index whose objects are still empty — nothing
+            // would ever backfill it again.
+            if let Err(err) = index.flush(now_ms).await {
+                index.drop_data().await;
+                return Err(err);
+            }
             if field.unique() {
                 self.btree_indexes.insert(0, index);
             } else {
@@ -2362,6 +2372,11 @@ impl Collection {
             .await?;
 
             if let Err(err) = self.backfill_btree_index(&index, now_ms).await {
+                index.drop_data().await;
+                return Err(err);
+            }
+            // See the single-field branch: persist before registering.
+            if let Err(err) = index.flush(now_ms).await {
                 index.drop_data().await;
                 return Err(err);
             }
@@ -2440,6 +2455,11 @@ impl Collection {
         .await?;
 
         if let Err(err) = self.backfill_bm25_index(&index, now_ms).await {
+            index.drop_data().await;
+            return Err(err);
+        }
+        // See `create_btree_index`: persist before registering.
+        if let Err(err) = index.flush(now_ms).await {
             index.drop_data().await;
             return Err(err);
         }
@@ -2526,6 +2546,11 @@ impl Collection {
 
         let index = Hnsw::new(field, config, self.storage.clone(), now_ms).await?;
         if let Err(err) = self.backfill_hnsw_index(&index, now_ms).await {
+            index.drop_data().await;
+            return Err(err);
+        }
+        // See `create_btree_index`: persist before registering.
+        if let Err(err) = index.flush(now_ms).await {
             index.drop_data().await;
             return Err(err);
         }
